@@ -1100,7 +1100,7 @@ def run_c15(ctx):
     for _h in range(nhist):
         world = World()
         for _n in range(rng.randint(4, ctx.pick(10, 14))):
-            if rng.random() < 0.03:
+            if rng.random() < 0.02:
                 fill_all(world, rng.randint(1, 5))        # (a short block of fillers: FactoryTrace compares block and step clauses)
             world.step(*random_request(rng, world))
         worlds.append(world)
